@@ -129,7 +129,7 @@ type run struct {
 	// openAtReturn: what of the server's listener / PacketConn was still open at the moment the
 	// effective Shutdown call returned ("" = nothing)
 	openAtReturn string
-	nonce     string
+	nonce        string
 }
 
 func (r *run) violate(format string, a ...any) {
